@@ -125,11 +125,13 @@ def fresh_sub(b, d, i, k):
     return _fresh[key]
 
 
-def fresh(b, d, i):
+def fresh(b, d, i, text_mode=False):
+    """text_mode: the source as a file opened in text mode delivers it (universal newlines: CR LF read as LF)"""
     from DocumentTemplate.DT_HTML import HTML
-    key = (b, d, i)
+    key = (b, d, i, text_mode)
     if key not in _fresh:
-        _fresh[key] = outcome(HTML(SOURCES[b - 1], defaults(d)), namespaces()[i - 1])
+        src = SOURCES[b - 1].replace('\r\n', '\n') if text_mode else SOURCES[b - 1]
+        _fresh[key] = outcome(HTML(src, defaults(d)), namespaces()[i - 1])
     return _fresh[key]
 
 
@@ -219,7 +221,7 @@ def run_file_history(h):
                 got = outcome(t, nss[arg - 1])
                 b, dd, i = outs[k]
                 k += 1
-                exp = fresh(b, dd, i)
+                exp = fresh(b, dd, i, text_mode=True)
                 exp = exp if exp.startswith('EXC:') else exp + (marker % b)
                 if got != exp:
                     return {'step': step, 'op': [op, arg], 'why': 'file template render differs', 'key': [b, dd, i],
